@@ -8,6 +8,7 @@ package main
 // attribute the file-system calls to ops.
 
 import (
+	"encoding/hex"
 	"bufio"
 	"fmt"
 	"io"
@@ -375,6 +376,21 @@ func runNames(in *bufio.Scanner, w *bufio.Writer) {
 				target := total * (300 - 50*int64(k) + 25) / 1000
 				mainFile := filepath.Join(mnt, "20190101.000000.000.cptv")
 				os.WriteFile(mainFile, make([]byte, free-target), 0644)
+				// what the file system looks like to deleteExcessRecordings (input of TR.Excess): blocks in all, blocks available,
+				// and the files of the continuous recorder's directory in lexical order with the blocks each occupies
+				{
+					var sf syscall.Statfs_t
+					syscall.Statfs(cdir, &sf)
+					ents, _ := os.ReadDir(cdir)
+					var parts []string
+					for _, e := range ents {
+						var st syscall.Stat_t
+						if syscall.Stat(filepath.Join(cdir, e.Name()), &st) == nil {
+							parts = append(parts, fmt.Sprintf("%s:%d", hex.EncodeToString([]byte(e.Name())), uint64(st.Blocks)*512/uint64(sf.Bsize)))
+						}
+					}
+					fmt.Fprintf(w, "< fullstate total=%d avail=%d files=%s\n", sf.Blocks, sf.Bavail, strings.Join(parts, ","))
+				}
 				var err error
 				vGuard(w, "full", func() {
 					err = rec.StartRecording(cptvframe.NewFrame(cam), 0)
